@@ -139,9 +139,6 @@ Clear(ev) ==
     /\ loc' = loc
     /\ last' = [NoCall EXCEPT !.kind = "clear"]
 
-(* per-shard sizes as observed (ConcurrentLruMap::shard_sizes) *)
-SizesAre(sz) == Len(sz) = Cardinality(Shards) /\ \A s \in Shards : sz[s] = Len(lru[s].order)
-
 \* ---------------------------------------------------------------- properties (C17)
 (* at most the configured number of entries, per shard; the representation is a map *)
 CapacityInv == \A s \in Shards : LWellFormed(lru[s])
@@ -168,7 +165,6 @@ OneShardPerKey == \A s, t \in Shards : s /= t => LKeys(lru[s]) \cap LKeys(lru[t]
 (* in the store; any set of older entries may be evicted by that call (the policy is not LRU);   *)
 (* the number of live entries never exceeds max.  get_state returns what was stored, or None      *)
 (* for an id that is not live.                                                                    *)
-BRestrict(st, live) == [i \in live |-> st[i]]
 BCacheState(st, max, rec, id, live) ==
     \* live = the ids that answer get_state after the call, as observed
     /\ id \in live
